@@ -477,7 +477,9 @@ class HTTPChannel(wasyncore.dispatcher):
         # an idle channel that has been inactive since the request arrived
         self.last_activity = time.time()
 
-        if task.close_on_finish:
+        if task.close_on_finish or self.will_close:
+            # (will_close: a socket error while flushing this response has
+            # already condemned the connection, see _flush_exception)
             with self.requests_lock:
                 self.close_when_flushed = True
 
